@@ -85,8 +85,11 @@ func VH_C01A() {
 // is out of range). Verbose variants report OffLevel (must emit nothing).
 const vNumEntryPoints = 61
 
+// vEntryMsg is the message every entry point logs.
+var vEntryMsg = "m"
+
 func vEntryPoint(e int, lg *Entry, ctx context.Context, sev Level) (Level, bool) {
-	const m = "m"
+	m := vEntryMsg
 	switch e {
 	case 0:
 		lg.Error(m)
